@@ -74,7 +74,8 @@ static int parse_bytes(const char *s, uint8_t **out, size_t *len, int *isnull)
 	}
 	{
 		uint8_t *d; int nul;
-		if (drv_parse_data(s, &d, len, &nul) || nul) return -1;
+		if (drv_parse_data(s, &d, len, &nul)) return -1;
+		if (nul) { free(d); return -1; }
 		*out = __real_malloc(*len + 1);
 		memcpy(*out, d, *len);
 		(*out)[*len] = 0;
